@@ -461,10 +461,10 @@ for _t in ("float", "bytes", "complex", "object", "type"):
 def _hasattr(ex, args, kw):
     v, name = args
     nm = z3.simplify(name.term).as_string()
+    h = ex.world.hasattr_hook(ex, v, nm) if hasattr(ex.world, "hasattr_hook") else None
+    if h is not None:
+        return VBool(h)
     if isinstance(v, VRef):
-        h = ex.world.hasattr_hook(ex, v, nm) if hasattr(ex.world, "hasattr_hook") else None
-        if h is not None:
-            return VBool(h)
         return VBool((v.sort, nm) in ex.world.fields or (v.sort, nm) in ex.world.methods)
     if isinstance(v, (VInt, VBool, VStr, VNone, VTuple)):
         return VBool(False)
